@@ -111,6 +111,20 @@ def run(ctx):
         path = tables.write_case_file(ctx, fc)
         nontrivial = (fc["data"], ) if (n >= 2 or any(len(t) != 1 for rec in fc["records"] for t in rec["texts"])) else None
         modes = [("lazy", True), ("eager", False)] if fmt.lazy else [("eager", False)]
+        if fname in ("vcf_gt", "vcf") and r.random() < 0.5:
+            # the same file (the same header text) was read through ANOTHER VCF buffer type earlier in the process
+            other_bt = r.choice([b for b in (None, "VCFBuffer2", "VCFMatrixBuffer", "VCFWithInfoAsStringBuffer") if b != buffer and (fname == "vcf_gt" or b in (None, "VCFWithInfoAsStringBuffer"))])
+            try:
+                ot = tables.open_case(path, fc, lazy=r.random() < 0.5, buffer=other_bt).read()
+                for fl_ in ("position", "genotypes", "info"):
+                    if hasattr(ot, fl_):
+                        try:
+                            tables.column(ot, fl_)
+                        except Exception:
+                            pass
+                ctx.count("same_header_through_another_buffer_type_first")
+            except Exception:
+                pass
         for mode, lazy in modes + [("raw", None)]:
             try:
                 if mode == "raw":
